@@ -113,6 +113,9 @@ theorem next1Loop_rep (p acq ws un) : (next1Loop p acq ws un).repaired := by
   · exact next2Loop_rep ..
   · simp [next1Loop, Next.repaired, K.repaired]
 
+theorem idleLoop_rep (p ws acc) : (idleLoop p ws acc).repaired := by
+  cases ws <;> simp [idleLoop, Next.repaired, K.repaired]
+
 theorem resume_rep (k : K) (b : Bool) (hk : k.repaired = true) : (resume k b).repaired := by
   cases k <;> simp only [resume] <;> simp only [K.repaired] at hk
   · split
@@ -135,6 +138,19 @@ theorem resume_rep (k : K) (b : Bool) (hk : k.repaired = true) : (resume k b).re
     · simp [Next.repaired]
     · exact next2Loop_rep ..
   · simp [Next.repaired]
+  · split
+    · simp [Next.repaired, K.repaired]
+    · exact next1Loop_rep ..
+  · split
+    · simp [Next.repaired, K.repaired]
+    · exact next2Loop_rep ..
+  · split
+    · simp [Next.repaired, K.repaired]
+    · exact idleLoop_rep ..
+  · split
+    · simp [Next.repaired, K.repaired]
+    · exact idleLoop_rep ..
+  · exact idleLoop_rep ..
 
 theorem start_rep (pw : Pid → List Wid) (op : Op) (h : op.repaired = true) : (start pw op).repaired := by
   cases op <;> simp only [start] <;> simp only [Op.repaired] at h
@@ -144,6 +160,8 @@ theorem start_rep (pw : Pid → List Wid) (op : Op) (h : op.repaired = true) : (
   · simp [Next.repaired, K.repaired, h]
   · exact absurd h (by simp)
   · exact relAllLoop_rep ..
+  · exact idleLoop_rep ..
+  · simp [Next.repaired, K.repaired]
 
 /-- All scripts use only the repaired operations, and every active call is owner-checked. -/
 def RepairedCfg (c : Cfg) : Prop :=
